@@ -1,3 +1,4 @@
+import Proofs.Handler
 import Proofs.Hyperslab
 import Proofs.Slice
 import Proofs.SliceTuple
